@@ -238,11 +238,13 @@ def gen_schema_v(ex=None) -> str:
     A("")
     for r in ROOTS:
         kidx = {k[0]: i for i, k in enumerate(r["kids"])}
-        er = ex["roots"][r["name"]] if ex is not None else None
+        er = ex["roots"].get(r["name"]) if ex is not None else None
         steps = list(er["steps"]) if er is not None else list(r["steps"])
         # the inline objects are embedded where they are used: their pseudo-tables are "emitted" last
         st = "; ".join(f"Conv {kidx[a]}" if k == "Conv" else f"Snap c{a}" for k, a in steps + [("Snap", t) for t in PSEUDO])
-        lo = "; ".join("c" + t for t in full_load_order(r, er["load"] if er is not None else None))
+        # the re-registration order is taken from the table (helper methods can hide it from the translator; it is validated by
+        # the comparison of the model's load with the real load on every case)
+        lo = "; ".join("c" + t for t in full_load_order(r))
         A(f"Definition root_{r['name']} : root_desc := Root c{r['name']} [{st}] [{lo}].")
     A("")
     A("Definition roots : list root_desc := [" + "; ".join("root_" + r["name"] for r in ROOTS) + "].")
